@@ -305,6 +305,55 @@ def run_pairs(r, iface0):
         shutil.rmtree(d, ignore_errors=True)
 
 
+def run_extras(r, iface):
+    """Download names with control characters (refused at construction or escaped - never emitted raw); responses behind the
+    library's own identity / header-editing / cookie-adding middleware; bodies at and around multiples of 256 KiB."""
+    m = mod_for(iface)
+    d = tempfile.mkdtemp(prefix="c05-", dir=os.environ.get("VERIF_SCRATCH", "/tmp"))
+    try:
+        p = os.path.join(d, "data.bin")
+        with open(p, "wb") as f:
+            f.write(bytes(range(10)))
+        # (CR, LF and NUL only - the characters the header mapping refuses; other control characters in a name the application
+        #  itself supplies are passed on like in any other header value the application sets)
+        for dn in ("a\r\nSet-Cookie: x=1.bin", "nul\0.txt", "line\nfeed.txt", "cr\rname.txt", "report.bin\r\n\r\n<html>"):
+            for rng in (None, "bytes=0-3", "bytes=0-1,5-6"):
+                name = f"file download_name={dn!r} range={rng!r}"
+                r.count("evaluations")
+                r.count("distinct_nontrivial")
+                try:
+                    resp = m.FileResponse(p, download_name=dn)
+                except ValueError:
+                    continue  # refusing the name is fine
+                except Exception as e:  # noqa
+                    r.violation(f"constructor:{type(e).__name__}", {"iface": iface, "recipe": name, "fault": None}, f"{iface} {name}: constructor raised {e!r:.120}")
+                    continue
+                res = call(iface, resp, "GET", [("Range", rng)] if rng else [])
+                raw = [(k, v) for e_ in getattr(res, "events", []) if e_.get("type") == "http.response.start" for k, v in e_.get("headers", [])] if iface == "asgi" else [(k.encode("latin-1", "replace"), v.encode("latin-1", "replace")) for k, v in (res.start_calls[-1][1] if res.start_calls else [])]
+                bad = [(k, v) for k, v in raw if any(c in k + v for c in (b"\r", b"\n", b"\0"))]
+                if bad:
+                    r.violation(f"extras:control-character-emitted:{iface}", {"iface": iface, "recipe": name, "fault": None}, f"{iface} {name}: header {bad[0]!r} carries CR, LF or NUL")
+                else:
+                    judge(r, iface, name, res, None)
+        W = __import__("vf.props.c20", fromlist=["wrappers"]).wrappers(iface)
+        for name, make in small_recipes()[3::11]:
+            for stack in (("M",), ("E",), ("C",), ("M", "C"), ("E", "M")):
+                app = make(m)
+                for wname in stack:
+                    app = W[wname](app)
+                res = call(iface, app, "GET")
+                judge(r, iface, f"{name} behind middleware {'>'.join(stack)}", res, None)
+        for n in (262143, 262144, 262145, 524287, 524288, 524289, 786432, 1048576):
+            for kind, mk in (("text", lambda: m.PlainTextResponse(b"x" * n)), ("html", lambda: m.HTMLResponse("y" * n)), ("json", lambda: m.JSONResponse("z" * (n - 2)))):
+                res = call(iface, mk(), "GET")
+                ok = judge(r, iface, f"{kind} body of {n} bytes", res, None)
+                if ok and len(res.body) != n:
+                    r.violation(f"extras:body-length:{iface}", {"iface": iface, "recipe": f"{kind} body of {n} bytes", "fault": None}, f"{iface} {kind} body of {n} bytes: {len(res.body)} bytes sent")
+        r.sample({"iface": iface, "recipe": "control characters in download_name; middleware; 256 KiB multiples"})
+    finally:
+        shutil.rmtree(d, ignore_errors=True)
+
+
 def run_vanish(r, iface):
     """The file disappears while its response is under way (after the k-th event the server sees): whatever was emitted stays a
     legal prefix - in particular no second response start from the not-found application."""
@@ -400,6 +449,7 @@ def shards(tier, seed):
     out.append(("wsgi_pings",))
     out += [("histories", k) for k in range(len(history_acts()))]
     out += [("pairs", iface) for iface in ("wsgi", "asgi", "zerocopy")]
+    out += [("extras", iface) for iface in ("wsgi", "asgi")]
     out += [("vanish", iface) for iface in ("wsgi", "asgi")]
     return out
 
@@ -494,6 +544,8 @@ def run_shard(desc, tier):
         run_pairs(r, desc[1])
     elif desc[0] == "vanish":
         run_vanish(r, desc[1])
+    elif desc[0] == "extras":
+        run_extras(r, desc[1])
     elif desc[0] == "histories":
         # what was answered before must not change what is answered now (message constants, class-level state)
         m = mod_for("asgi")
@@ -548,6 +600,10 @@ def replay(w):
     iface = w["iface"]
     name = w["recipe"]
     fams = []
+    if "behind middleware" in name or "body of" in name or (name.startswith("file download_name=") and "if_range" not in name):
+        run_extras(r, iface)
+        hits = {k: v for k, v in r.viol.items() if v[1].get("recipe") == name}
+        return bool(hits), {"violations": sorted(hits), "texts": [v[2][:300] for v in hits.values()]}
     if name.startswith("pair "):
         run_pairs(r, iface)
         hits = {k: v for k, v in r.viol.items() if v[1].get("recipe") == name}
